@@ -25,6 +25,8 @@ from . import env
 NPROC = int(os.environ.get('VERIF_JOBS', '16'))
 MAX_RESTARTS = 4          # distinct root causes reported per Hypothesis shard
 MAX_PER_BUCKET = 2
+COLLECT = os.environ.get('VERIF_COLLECT') == '1'      # calibration mode, never used by registered commands
+NO_KNOWN = os.environ.get('VERIF_NO_KNOWN') == '1'
 HANG_S = float(os.environ.get('VERIF_HANG_S', '45'))
 SLOT_BYTES = 8192
 
@@ -148,6 +150,8 @@ class Findings(object):
                 raise env.HarnessError('known finding %s names unknown predicate %s' % (f['id'], p))
 
     def match(self, case, v):
+        if NO_KNOWN:
+            return None
         if v.sig is not None:
             fid = self._sigs.get(canon(v.sig))
             if fid:
@@ -249,6 +253,14 @@ class Ctx(object):
                 self.stats.vcount[v.bucket] = self.stats.vcount.get(v.bucket, 0) + 1
                 continue
             new.append(v)
+        if new and COLLECT:
+            # calibration mode (development aid): never stop, keep two examples per bucket
+            for v in new:
+                if self.stats.vcount.get(v.bucket, 0) < 2:
+                    self.add_violation(case, v, r.obs)
+                else:
+                    self.stats.vcount[v.bucket] += 1
+            return [], r
         if new and raise_new:
             self.last_fail = (case, new[0], r.obs)
             raise AssertionError('%s: %s' % (new[0].kind, canon(new[0].detail)[:300]))
@@ -627,6 +639,9 @@ def main(check, argv=None):
         with open(os.path.join(env.VERIF, 'evidence', prop + '.json'), 'w', encoding='utf-8') as f:
             json.dump(ev, f, indent=1, ensure_ascii=False, default=str)
             f.write('\n')
+        if COLLECT:
+            for b, n in sorted(total.vcount.items(), key=lambda kv: -kv[1]):
+                print('BUCKET %6d  %s' % (n, b))
         for ln in lines:
             print(ln)
         print('%s tier=%s seed=%d cases=%d evaluations=%d distinct_nontrivial=%d known_hits=%d violations=%d wall=%.1fs' % (
